@@ -101,7 +101,8 @@ def make(u):
         return sp, (0, 0, R / 2), edits, abs(R)
     if fam == 'fold+paraboloid':
         R = u['R']                       # positive
-        d = 30.0
+        # the paraboloid rim must stay behind the fold mirror plane: gap = rim sag + 30
+        d = 30.0 + (R / 2 / u['fno'] / 2) ** 2 / (2 * R)
         surfs = [S('plane', mat='mirror', t=-d, stop=True), S('conic', R=R, k=-1.0, mat='mirror', t=R / 2)]
         sp = LZ.spec(surfs, obj=LZ.INF, ap=('EPD', R / 2 / u['fno']), fields=(0.0,), waves=w)
         return sp, (0, 0, -d + R / 2), edits, R
